@@ -1,5 +1,5 @@
 """C11 - beat to time conversion matches the exact timeline (structural clauses)."""
-from ..rules import timing, state
+from ..rules import timing, state, baseline
 
 EXPLANATION = (
     "Static rule checking of the timing engine's forward direction: R-TABLE the EventTag order and default tag, the pairing of event "
@@ -38,10 +38,14 @@ def c4(ctx):
 def c5(ctx):
     state.shared_state(ctx, ["simfile.timing.engine:TimingEngine.__init__", "simfile.timing.engine:TimingEngine.time_at", "simfile.timing.engine:TimingEngine.bpm_at"], "the times an engine reports depend on its own timing data only")
 
+def c_api(ctx):
+    baseline.surface(ctx, "C11: documented surface", modules=['simfile.timing.engine', 'simfile.timing'])
+
 CLAUSES = [
     ("C11.1", "tag order and default tag (R-TABLE)", c1),
     ("C11.2", "event pairing, warp coalescing, initial state (R-TABLE)", c2),
     ("C11.3", "search order = build order for _tagged_beats (R-BISECT)", c3),
     ("C11.4-5", "dimensions and pause guard sets (R-DIM, R-TABLE)", c4),
     ("C11.6", "no process-wide state behind the engine (a cache must be keyed by everything the timeline reads) (R-STATE)", c5),
+    ("C11.api", "public surface: signatures and defaults, constants, enumerations, blank templates, base classes as confirmed (R-API)", c_api),
 ]
